@@ -31,6 +31,8 @@ import (
 	"github.com/tetratelabs/wazero/experimental/sock"
 	expsys "github.com/tetratelabs/wazero/experimental/sys"
 	"github.com/tetratelabs/wazero/imports/wasi_snapshot_preview1"
+	socketapi "github.com/tetratelabs/wazero/internal/sock"
+	isys "github.com/tetratelabs/wazero/internal/sys"
 	"github.com/tetratelabs/wazero/internal/wasm"
 	wsys "github.com/tetratelabs/wazero/sys"
 	"github.com/tetratelabs/wazero/verifharness/wb"
@@ -41,7 +43,7 @@ type Case struct {
 	ID     int      `json:"id"`
 	Fn     string   `json:"fn"`
 	Args   []uint64 `json:"args"`
-	State  string   `json:"state"`  // bare | dir | hole | sock
+	State  string   `json:"state"`  // bare | dir | hole | sock | sockp (sock + a pending connection) | alias (dir + p.bin open at 6) | dirread (dir, both directory streams read to the end before)
 	Img    string   `json:"img"`    // zero | struct | ff | rand:<n>
 	Engine string   `json:"engine"` // interpreter | compiler
 	Tag    string   `json:"tag,omitempty"`
@@ -55,7 +57,7 @@ type Run struct {
 
 type FdEnt struct {
 	Fd   int    `json:"fd"`
-	Kind string `json:"kind"` // in | out | err | pre | file | dir
+	Kind string `json:"kind"` // in | out | err | pre | file | dir | lsn | conn
 }
 
 type Result struct {
@@ -73,20 +75,24 @@ type Result struct {
 	Masks    int     `json:"masks"`
 	Items    int     `json:"items"`
 	DurUS    int64   `json:"dur_us"`
-	SleepNS  int64   `json:"sleep_ns,omitempty"` // longest Nanosleep the host requested
+	SleepNS  int64   `json:"sleep_ns,omitempty"`  // longest Nanosleep the host requested
+	DirOrder string  `json:"dir_order,omitempty"` // states dir/hole/dirread: entries (hexname:filetype) of the mounted directory and of d/ in host listing order
 }
 
 const (
-	memPages      = 1
-	memSize       = memPages * 65536
-	wallSec       = 1700000000
-	wallNsec      = 123456789
-	wallRes       = 1000
-	monoNanos     = 987654321
-	monoRes       = 1
-	stdinContent  = "hello wasi stdin!"
-	fileContent   = "0123456789"
-	preopenName   = "/"
+	memPages     = 1
+	memSize      = memPages * 65536
+	wallSec      = 1700000000
+	wallNsec     = 123456789
+	wallRes      = 1000
+	monoNanos    = 987654321
+	monoRes      = 1
+	stdinContent = "hello wasi stdin!"
+	fileContent  = "0123456789"
+	preopenName  = "/"
+	// p.bin: its first 8 bytes are an iovec (buf = 4096, len = 4) - read into a buffer that covers a later entry of the
+	// iovec array of the same call, they redirect the next read (state alias: p.bin open at 6)
+	aliasContent  = "\x00\x10\x00\x00\x04\x00\x00\x00ABCDEF"
 	rlimitASBytes = 6 << 30
 )
 
@@ -199,6 +205,7 @@ func (e *childEnv) rebuildDir() {
 	must(os.WriteFile(filepath.Join(e.dir, "f.txt"), []byte(fileContent), 0o644))
 	must(os.WriteFile(filepath.Join(e.dir, "d", "g"), []byte("g"), 0o644))
 	must(os.Symlink("f.txt", filepath.Join(e.dir, "link")))
+	must(os.WriteFile(filepath.Join(e.dir, "p.bin"), []byte(aliasContent), 0o644))
 }
 
 func must(err error) {
@@ -228,7 +235,9 @@ func (e *childEnv) exec(c Case) Result {
 	for _, kv := range hostEnv {
 		cfg = cfg.WithEnv(kv[0], kv[1])
 	}
-	if (c.State == "dir" || c.State == "hole") {
+	isSock := c.State == "sock" || c.State == "sockp"
+	isDirState := c.State == "dir" || c.State == "hole" || c.State == "dirread" || c.State == "alias"
+	if isDirState {
 		if e.dirty {
 			e.rebuildDir()
 		}
@@ -236,14 +245,14 @@ func (e *childEnv) exec(c Case) Result {
 		cfg = cfg.WithFSConfig(wazero.NewFSConfig().WithDirMount(e.dir, preopenName))
 	}
 	ictx := e.ctx
-	if c.State == "sock" {
+	if isSock {
 		ictx = sock.WithConfig(ictx, sock.NewConfig().WithTCPListener("127.0.0.1", 0))
 	}
 	mod, err := rt.InstantiateModule(ictx, cm, cfg)
 	must(err)
 	defer mod.Close(e.ctx)
 	fsc := mod.(*wasm.ModuleInstance).Sys.FS()
-	if c.State == "sock" {
+	if isSock {
 		// table {0,1,2, 3 = pre-opened TCP listener (non-blocking), 4 = an accepted connection whose peer has sent
 		// 19 bytes and closed its sending side (reads end with EOF instead of blocking)}
 		l, ok := fsc.LookupFile(3)
@@ -267,8 +276,14 @@ func (e *childEnv) exec(c Case) Result {
 		if _, ferr := mod.ExportedFunction("c_fd_fdstat_set_flags").Call(e.ctx, 3, 4); ferr != nil {
 			must(ferr)
 		}
+		if c.State == "sockp" {
+			// a second peer has connected and is waiting in the accept queue
+			peer2, derr := net.DialTimeout("tcp", a.Addr().String(), 5*time.Second)
+			must(derr)
+			defer peer2.Close()
+		}
 	}
-	if (c.State == "dir" || c.State == "hole") {
+	if isDirState {
 		pre, ok := fsc.LookupFile(3)
 		if !ok {
 			must(fmt.Errorf("no preopen"))
@@ -284,6 +299,18 @@ func (e *childEnv) exec(c Case) Result {
 			open("f.txt", expsys.O_RDONLY) // fd 6
 			fsc.CloseFile(5)               // table {0,1,2,3,4,6}
 		}
+		if c.State == "alias" {
+			open("p.bin", expsys.O_RDONLY) // fd 6
+		}
+		if c.State == "dirread" {
+			for _, fd := range []uint64{3, 5} {
+				out, rerr := mod.ExportedFunction("c_fd_readdir").Call(e.ctx, fd, 8192, 4096, 0, 16384)
+				must(rerr)
+				if out[0] != 0 {
+					must(fmt.Errorf("setup fd_readdir(%d): errno %d", fd, out[0]))
+				}
+			}
+		}
 	}
 	mem := mod.Memory()
 	img := buildImage(c.Img, int(mem.Size()))
@@ -291,6 +318,9 @@ func (e *childEnv) exec(c Case) Result {
 		must(fmt.Errorf("image write"))
 	}
 	res := Result{ID: c.ID, Errno: -1, MemSize: mem.Size()}
+	if isDirState {
+		res.DirOrder = listOrder(e.dir) + " " + listOrder(filepath.Join(e.dir, "d"))
+	}
 	res.Before, _, _, _ = tableDump(fsc)
 	f := mod.ExportedFunction("c_" + c.Fn)
 	if f == nil {
@@ -353,6 +383,38 @@ func tableNames(fsc any) string {
 	return sb.String()
 }
 
+// listOrder: the entries of a host directory in the order the host lists it (not sorted), as `hexname:wasi-filetype`.
+func listOrder(dir string) string {
+	f, err := os.Open(dir)
+	if err != nil {
+		return "?"
+	}
+	defer f.Close()
+	names, err := f.Readdirnames(-1)
+	if err != nil {
+		return "?"
+	}
+	if len(names) == 0 {
+		return "-"
+	}
+	ls := make([]string, len(names))
+	for i, n := range names {
+		ty := 0
+		if st, err := os.Lstat(filepath.Join(dir, n)); err == nil {
+			switch {
+			case st.Mode().IsRegular():
+				ty = 4
+			case st.Mode().IsDir():
+				ty = 3
+			case st.Mode()&os.ModeSymlink != 0:
+				ty = 7
+			}
+		}
+		ls[i] = fmt.Sprintf("%s:%d", hex.EncodeToString([]byte(n)), ty)
+	}
+	return strings.Join(ls, ",")
+}
+
 func diffRuns(a, b []byte) []Run {
 	var runs []Run
 	for i := 0; i < len(a); {
@@ -409,6 +471,18 @@ func tableDump(fsc any) (ents []FdEnt, nmasks, nitems int, msg string) {
 			kind = "pre"
 		case name == "d" || name == "d/":
 			kind = "dir"
+		}
+		// what the entry IS decides over the name: sockets, and directories opened under another name (".", "d/.")
+		if entry := (*isys.FileEntry)(it.UnsafePointer()); entry != nil && entry.File != nil {
+			if _, ok := entry.File.(socketapi.TCPSock); ok {
+				kind = "lsn"
+			} else if _, ok := entry.File.(socketapi.TCPConn); ok {
+				kind = "conn"
+			} else if kind == "file" {
+				if isDir, errno := entry.File.IsDir(); errno == 0 && isDir {
+					kind = "dir"
+				}
+			}
 		}
 		ents = append(ents, FdEnt{Fd: i, Kind: kind})
 	}
